@@ -106,11 +106,13 @@ func (d *BaseLeecher) UnregisterPeer(peer string) error {
 	d.Mu.Lock()
 	defer d.Mu.Unlock()
 
+	// remove the peer first: Routine() below selects the candidates for the next session from the known peers,
+	// and must not start a new session with the peer which is being unregistered
+	delete(d.Peers, peer)
 	if d.callback.OngoingSessionPeer() == peer {
 		d.callback.TerminateSession()
 		d.Routine()
 	}
-	delete(d.Peers, peer)
 	return nil
 }
 
